@@ -38,6 +38,7 @@ import (
 	"fmt"
 	"sort"
 	"strings"
+	"sync"
 
 	"google.golang.org/protobuf/cmd/protoc-gen-go/internal_gengo"
 	"google.golang.org/protobuf/compiler/protogen"
@@ -58,7 +59,8 @@ var APILevels = []string{"API_OPEN", "API_HYBRID", "API_OPAQUE"}
 var CompilerVersion = &pluginpb.Version{Major: proto.Int32(5), Minor: proto.Int32(29), Patch: proto.Int32(1)}
 
 // LinkedClosure returns the descriptor protos of the files linked into this binary that the set
-// imports (transitively) and does not contain itself, dependencies first.
+// imports (transitively) and does not contain itself, dependencies first. The returned protos are
+// shared between calls: do not modify them.
 func LinkedClosure(files []*descriptorpb.FileDescriptorProto) ([]*descriptorpb.FileDescriptorProto, error) {
 	own := map[string]bool{}
 	for _, f := range files {
@@ -82,7 +84,7 @@ func LinkedClosure(files []*descriptorpb.FileDescriptorProto) ([]*descriptorpb.F
 				return err
 			}
 		}
-		out = append(out, protodesc.ToFileDescriptorProto(fd))
+		out = append(out, linkedProto(fd))
 		return nil
 	}
 	for _, f := range files {
@@ -93,6 +95,24 @@ func LinkedClosure(files []*descriptorpb.FileDescriptorProto) ([]*descriptorpb.F
 		}
 	}
 	return out, nil
+}
+
+var (
+	linkedProtoMu    sync.Mutex
+	linkedProtoCache = map[string]*descriptorpb.FileDescriptorProto{}
+)
+
+// linkedProto converts a linked file once; the result is shared (treat it as read-only: Generate
+// works on a re-parsed copy of the request).
+func linkedProto(fd protoreflect.FileDescriptor) *descriptorpb.FileDescriptorProto {
+	linkedProtoMu.Lock()
+	defer linkedProtoMu.Unlock()
+	p := linkedProtoCache[fd.Path()]
+	if p == nil {
+		p = protodesc.ToFileDescriptorProto(fd)
+		linkedProtoCache[fd.Path()] = p
+	}
+	return p
 }
 
 // AssignGoPackages gives files a go_package option "<base>/p<i>;p<i>pb" (i = index in the slice, so
